@@ -15,6 +15,7 @@ from ._helpers_rules_c import (
     test_edges,
 )
 from ._helpers_str_l import assignments, branch_atoms, consistent_ok, describe_facts
+from ._helpers_rob_f1 import Inliner, rcall_nodes, test_edges_inl
 
 R = Registry(
     "C28",
@@ -56,34 +57,87 @@ def _in_with(pm, node, pred) -> bool:
     return any(pred(i.context_expr) for w in enclosing_withs(pm, node) for i in w.items)
 
 
+def _mutex_pred(inl):
+    """`self._get_exec_once_mutex()` directly, or a local that holds exactly that call."""
+    def is_mutex(e):
+        e = inl(e)
+        return isinstance(e, ast.Call) and call_name(e) == "self._get_exec_once_mutex"
+    return is_mutex
+
+
+def _dispatching_helper(ctx, cls, f, g):
+    """The one method `self.<h>(...)` called by `f` that performs the dispatch `self(*args, **kw)` when `f` does
+    not do it itself (body of the locked region extracted into a helper): (call-site node, call, helper)."""
+    out = []
+    for n in g.nodes:
+        for c in own_calls(n):
+            nm = call_name(c) or ""
+            if nm.startswith("self.") and nm.count(".") == 1:
+                h = ctx.index.resolve_method(cls, nm[5:])
+                if h is not None and h.node is not f.node and _self_invocations(ctx.cfg(h, exception_is_catch_all=False)):
+                    out.append((n.id, c, h))
+    return out
+
+
+def _snapshot_names(fnode, attr, where):
+    """locals bound (only) to a plain read of `self.<attr>` by statements for which `where(stmt)` holds."""
+    binds = {}
+    for nm, v, st in name_stores(fnode):
+        binds.setdefault(nm, []).append((v, st))
+    return {nm for nm, vs in binds.items()
+            if all(v is not None and dotted(v) == f"self.{attr}" and where(st) for v, st in vs)}
+
+
 @R.rule("C28-R1", floor=8, template="T-GUARD",
         desc="_exec_once_impl: re-test, invocation and flag write under the exec-once mutex; flag set on "
              "success and on failure-without-retry, never on failure-with-retry; mutex created under "
              "mini_gil; _exec_w_sync_on_first_run sets its flag only after success")
 def r1(ctx):
     cls = ctx.index.cls(f"{ATTR}::_CompoundListener")
-    pm = cls.module.parents()
     f = ctx.method(cls.key, "_exec_once_impl")
-    g = ctx.cfg(f, exception_is_catch_all=False)
+    gf = ctx.cfg(f, exception_is_catch_all=False)
+    pm_f = f.module.parents()
+    mutex_f = _mutex_pred(Inliner(f.node))
+    retry = f.params[1]
+    body, site = f, None
+    if not _self_invocations(gf):
+        hs = _dispatching_helper(ctx, cls, f, gf)
+        ctx.require(len(hs) == 1, "no self(*args, **kw) dispatch in _exec_once_impl (nor in exactly one method it calls)")
+        site = hs[0]
+        body = site[2]
+        ctx.functions_analysed.add(body.key)
+        # the helper's name for retry_on_exception
+        bound = dict(zip(body.params[1:], site[1].args))
+        bound.update({k.arg: k.value for k in site[1].keywords if k.arg})
+        names = [p for p, a in bound.items() if isinstance(a, ast.Name) and a.id == retry]
+        ctx.require(len(names) == 1, f"{body.qualname}: cannot tell which parameter receives retry_on_exception")
+        retry = names[0]
+    g = ctx.cfg(body, exception_is_catch_all=False)
+    pm = body.module.parents()
+    inl = Inliner(body.node)
+    is_mutex = _mutex_pred(inl)
     ps = PathSense(g)
-    is_mutex = lambda e: isinstance(e, ast.Call) and call_name(e) == "self._get_exec_once_mutex"  # noqa: E731
+    site_locked = site is not None and _in_with(pm_f, gf.nodes[site[0]].stmt, mutex_f)
+    locked = lambda node: site_locked or _in_with(pm, node, is_mutex)  # noqa: E731
     inv = _self_invocations(g)
-    ctx.require(inv, "no self(*args, **kw) dispatch in _exec_once_impl")
-    sets = _flag_stores(g, f.node, "_exec_once", True)
+    sets = _flag_stores(g, body.node, "_exec_once", True)
     ctx.require(sets, "_exec_once_impl never sets self._exec_once = True")
     problems = []
     for n in inv + sets:
         st = g.nodes[n].stmt
-        if not _in_with(pm, st, is_mutex):
+        if not locked(st):
             problems.append(f"`{unparse(st).splitlines()[0]}` is outside `with self._get_exec_once_mutex()`")
+    # the re-test: a branch outcome `not self._exec_once` that dominates the dispatch and is evaluated after the
+    # mutex was taken (whatever the shape: nested if, early return, in the helper or at its call site)
+    snaps = _snapshot_names(body.node, "_exec_once", locked)
     for n in inv:
-        st = g.nodes[n].stmt
-        inner = [(t, p) for t, p in lexical_guards(pm, st, stop=f.node) if _in_with(pm, t, is_mutex)]
-        if ("self._exec_once", False) not in guard_atoms(inner):
+        atoms = guard_atoms([(t, p) for t, p in g.edge_guards(n) if locked(t)])
+        if site is not None:
+            atoms += guard_atoms([(t, p) for t, p in gf.edge_guards(site[0]) if _in_with(pm_f, t, mutex_f)])
+        if not any(p is False and (a == "self._exec_once" or a in snaps) for a, p in atoms):
             problems.append("the dispatch is not re-tested with `not self._exec_once` after the mutex is taken")
     ctx.check(not problems, f.key + ":under-mutex", "; ".join(problems),
               "re-test, dispatch and flag write inside the mutex", f.loc)
-    retry = f.params[1]
     ok_edges = [b for n in inv for b, lab in g.succ[n] if lab != "exc"]
     w = ps.witness(ok_edges, [g.exit], avoid=sets)
     ctx.check(w is None, f.key + ":flag-after-success",
@@ -101,7 +155,8 @@ def r1(ctx):
     for name, want in (("exec_once", False), ("exec_once_unless_exception", True)):
         fm = ctx.method(cls.key, name)
         cs = [c for c in calls_in(fm.node) if call_name(c) == "self._exec_once_impl"]
-        good = bool(cs) and all(c.args and isinstance(c.args[0], ast.Constant) and c.args[0].value is want for c in cs)
+        vals = [kw_or_pos(c, f.params[1], 0) for c in cs]
+        good = bool(cs) and all(isinstance(v, ast.Constant) and v.value is want for v in vals)
         gm = ctx.cfg(fm)
         nodes = call_nodes(gm, lambda nm, c: nm == "self._exec_once_impl")
         fast = all(("self._exec_once", False) in guard_atoms(gm.edge_guards(n)) for n in nodes)
@@ -110,29 +165,36 @@ def r1(ctx):
     # mutex creation
     fm = ctx.method(cls.key, "_get_exec_once_mutex")
     gm = ctx.cfg(fm)
+    pmm = fm.module.parents()
     is_gil = lambda e: (dotted(e) or "").split(".")[-1] == "mini_gil"  # noqa: E731
     stores = [(st, n) for d, t, st in attr_stores(fm.node) if d == "self._exec_once_mutex" for n in gm.nodes_for(st)]
     ctx.require(stores, "_get_exec_once_mutex never stores the mutex")
+    # a local that holds what was read from the attribute inside the region is as good as the attribute
+    read_in = {nm for nm, v, st in name_stores(fm.node)
+               if v is not None and dotted(v) == "self._exec_once_mutex" and _in_with(pmm, st, is_gil)}
     problems = []
     for st, n in stores:
-        if not _in_with(pm, st, is_gil):
+        if not _in_with(pmm, st, is_gil):
             problems.append("the mutex is stored outside `with util.mini_gil`")
-        inner = [(t, p) for t, p in gm.edge_guards(n) if _in_with(pm, t, is_gil)]
-        if ("self._exec_once_mutex is None", True) not in guard_atoms(inner):
+        inner = guard_atoms([(t, p) for t, p in gm.edge_guards(n) if _in_with(pmm, t, is_gil)])
+        if not any(p is True and a in ({"self._exec_once_mutex is None"} | {f"{nm} is None" for nm in read_in}) for a, p in inner):
             problems.append("the store is not preceded by an `is not None` test inside the same mini_gil region (two threads could create two mutexes)")
-    rets = [r for r in walk_local(fm.node) if isinstance(r, ast.Return)]
-    if not all(_in_with(pm, r, is_gil) for r in rets):
-        problems.append("a return reads the mutex outside mini_gil")
+    for r in walk_local(fm.node):
+        if isinstance(r, ast.Return) and r.value is not None and not _in_with(pmm, r, is_gil) \
+                and any(dotted(x) == "self._exec_once_mutex" for x in ast.walk(r.value)):
+            problems.append("a return reads the mutex outside mini_gil")
     ctx.check(not problems, fm.key, "; ".join(sorted(set(problems))), "test-and-set under mini_gil", fm.loc)
     # _exec_w_sync_on_first_run
     fs = ctx.method(cls.key, "_exec_w_sync_on_first_run")
     gs = ctx.cfg(fs, exception_is_catch_all=False)
+    pms = fs.module.parents()
+    mutex_s = _mutex_pred(Inliner(fs.node))
     inv = _self_invocations(gs)
     sets = _flag_stores(gs, fs.node, "_exec_w_sync_once", True)
     ctx.require(inv and sets, "_exec_w_sync_on_first_run lost its dispatch or its flag")
     first = [n for n in inv if ("self._exec_w_sync_once", False) in guard_atoms(gs.edge_guards(n))]
     problems = []
-    if not first or not all(_in_with(pm, gs.nodes[n].stmt, is_mutex) for n in first):
+    if not first or not all(_in_with(pms, gs.nodes[n].stmt, mutex_s) for n in first):
         problems.append("the first-run dispatch is not under the exec-once mutex")
     after_fail = set()
     for n in first:
@@ -144,16 +206,18 @@ def r1(ctx):
     ctx.check(not problems, fs.key, "; ".join(problems), "flag only in the success continuation, dispatch under mutex", fs.loc)
 
 
-def _clslevel_calls(g, *attrs):
-    """CFG nodes calling `self._clslevel[<k>].<attr>(...)`."""
+def _clslevel_calls(g, inl, *attrs):
+    """[(CFG node, call, receiver after alias resolution)] for calls `self._clslevel[<k>].<attr>(...)` -- written
+    directly, through a local alias of the mapping (`m = self._clslevel; m[k].append(f)`) or of the slot
+    (`coll = self._clslevel[k]; coll.append(f)`)."""
     out = []
     for n in g.nodes:
         for c in own_calls(n):
             fn = c.func
-            if isinstance(fn, ast.Attribute) and fn.attr in attrs and isinstance(fn.value, ast.Subscript) \
-                    and dotted(fn.value.value) == "self._clslevel":
-                out.append(n.id)
-                break
+            if isinstance(fn, ast.Attribute) and fn.attr in attrs:
+                recv = inl(fn.value)
+                if isinstance(recv, ast.Subscript) and dotted(recv.value) == "self._clslevel":
+                    out.append((n.id, c, recv))
     return out
 
 
@@ -162,55 +226,90 @@ def _single_call(fnode, name):
     return cs[0] if len(cs) == 1 else None
 
 
+def _bind_args(call, h):
+    """{parameter of method h: argument expression of `self.h(...)`}"""
+    bound = dict(zip(h.params[1:], [a for a in call.args if not isinstance(a, ast.Starred)]))
+    bound.update({k.arg: k.value for k in call.keywords if k.arg})
+    return bound
+
+
+def _walk_loops(g, inl):
+    return [n for n in g.nodes if n.kind == "for" and isinstance(inl(n.stmt.iter), ast.Call)
+            and (call_name(inl(n.stmt.iter)) or "").endswith("walk_subclasses")]
+
+
 @R.rule("C28-R2", floor=10, template="T-SIBLING",
         desc="insert<->appendleft/prepend_to_list, append<->append/append_to_list at class and instance "
              "level; both walk walk_subclasses(target) and end with the registry store; remove/clear undo "
              "collection, propagate set and registry together")
 def r2(ctx):
     cd = ctx.index.cls(f"{ATTR}::_ClsLevelDispatch")
-    for name, want in (("insert", False), ("append", True)):
-        f = ctx.method(cd.key, name)
-        c = _single_call(f.node, "self._do_insert_or_append")
-        v = kw_or_pos(c, "is_append", 1) if c is not None else None
-        ctx.check(v is not None and isinstance(v, ast.Constant) and v.value is want, f.key,
-                  f"class-level {name}() does not delegate to _do_insert_or_append(is_append={want})",
-                  f"-> _do_insert_or_append(is_append={want})", f.loc)
     f = ctx.method(cd.key, "_do_insert_or_append")
-    g = ctx.cfg(f)
     flag = "is_append"
     ctx.require(flag in f.params, "_do_insert_or_append lost its is_append parameter")
-    app = _clslevel_calls(g, "append")
-    appl = _clslevel_calls(g, "appendleft")
+    for name, want in (("insert", False), ("append", True)):
+        fm = ctx.method(cd.key, name)
+        c = _single_call(fm.node, "self._do_insert_or_append")
+        v = kw_or_pos(c, flag, f.params.index(flag) - 1) if c is not None else None
+        ctx.check(v is not None and isinstance(v, ast.Constant) and v.value is want, fm.key,
+                  f"class-level {name}() does not delegate to _do_insert_or_append(is_append={want})",
+                  f"-> _do_insert_or_append(is_append={want})", fm.loc)
+    g = ctx.cfg(f)
+    inl = Inliner(f.node)
     problems = []
-    if not app or not all((flag, True) in guard_atoms(g.edge_guards(n)) for n in app):
-        problems.append("append() is not the is_append branch")
-    if not appl or not all((flag, False) in guard_atoms(g.edge_guards(n)) for n in appl):
-        problems.append("appendleft() is not the insert branch")
-    loops = [n for n in g.nodes if n.kind == "for"]
-    walk = [n for n in loops if isinstance(n.stmt.iter, ast.Call) and (call_name(n.stmt.iter) or "").endswith("walk_subclasses")]
+    walk = _walk_loops(g, inl)
     if not walk:
         problems.append("does not iterate util.walk_subclasses(target)")
-    else:
-        lv = walk[0].stmt.target.id if isinstance(walk[0].stmt.target, ast.Name) else None
-        for n in app + appl:
-            c = [c for c in calls_in(g.nodes[n].stmt) if isinstance(c.func, ast.Attribute) and c.func.attr in ("append", "appendleft")][0]
-            recv = c.func.value
-            if not (isinstance(recv, ast.Subscript) and dotted(recv.value) == "self._clslevel" and isinstance(recv.slice, ast.Name) and recv.slice.id == lv):
+    # where the per-class update is done: in the loop itself, or in one helper method called from it
+    # (`self._add_to(cls, event_key, is_append)`) whose parameters are bound to the loop's values
+    body, gb, inlb = f, g, inl
+    names = {"flag": flag, "key": f.params[1], "cls": walk[0].stmt.target.id if walk and isinstance(walk[0].stmt.target, ast.Name) else None}
+    if walk and not _clslevel_calls(g, inl, "append", "appendleft"):
+        hs = []
+        for n in g.nodes:
+            for c in own_calls(n):
+                nm = call_name(c) or ""
+                if nm.startswith("self.") and nm.count(".") == 1:
+                    h = ctx.index.resolve_method(cd, nm[5:])
+                    if h is not None and h.node is not f.node and \
+                            _clslevel_calls(ctx.cfg(h), Inliner(h.node), "append", "appendleft"):
+                        hs.append((n.id, c, h))
+        if len(hs) == 1:
+            n0, c0, h = hs[0]
+            bound = _bind_args(c0, h)
+            inv = {}
+            for p, a in bound.items():
+                if isinstance(a, ast.Name):
+                    inv[a.id] = p
+            if all(names[k] in inv for k in names) and n0 in g.reachable([walk[0].id]):
+                body, gb, inlb = h, ctx.cfg(h), Inliner(h.node)
+                names = {k: inv[v] for k, v in names.items()}
+                ctx.functions_analysed.add(h.key)
+    app = _clslevel_calls(gb, inlb, "append")
+    appl = _clslevel_calls(gb, inlb, "appendleft")
+    if not app or not all((names["flag"], True) in inlb.atoms(gb.edge_guards(n)) for n, _, _ in app):
+        problems.append("append() is not the is_append branch")
+    if not appl or not all((names["flag"], False) in inlb.atoms(gb.edge_guards(n)) for n, _, _ in appl):
+        problems.append("appendleft() is not the insert branch")
+    if walk:
+        for n, c, recv in app + appl:
+            if not (isinstance(recv.slice, ast.Name) and recv.slice.id == names["cls"]):
                 problems.append(f"`{unparse(c)}` does not update self._clslevel[<walked class>]")
-            if not (len(c.args) == 1 and dotted(c.args[0]) == f"{f.params[1]}._listen_fn"):
+            if not (len(c.args) == 1 and inlb.dotted(c.args[0]) == f"{names['key']}._listen_fn"):
                 problems.append(f"`{unparse(c)}` does not store event_key._listen_fn")
-    stored = call_nodes(g, lambda nm, c: nm.endswith("_stored_in_collection"))
+    stored = rcall_nodes(g, inl, lambda nm, c: nm.endswith("_stored_in_collection"))
     if not stored or must_pass(g, [g.entry], [g.exit], stored, edge_ok=no_exc):
         problems.append("a normal path does not end with registry._stored_in_collection(event_key, self)")
     ctx.check(not problems, f.key, "; ".join(problems), "appendleft/append per walked subclass, then registry store", f.loc)
     f = ctx.method(cd.key, "remove")
     g = ctx.cfg(f)
+    inl = Inliner(f.node)
     problems = []
-    walk = [n for n in g.nodes if n.kind == "for" and isinstance(n.stmt.iter, ast.Call) and (call_name(n.stmt.iter) or "").endswith("walk_subclasses")]
-    rem = _clslevel_calls(g, "remove", "discard")
+    walk = _walk_loops(g, inl)
+    rem = _clslevel_calls(g, inl, "remove", "discard")
     if not walk or not rem:
         problems.append("does not remove the listener from every walked subclass collection")
-    gone = call_nodes(g, lambda nm, c: nm.endswith("_removed_from_collection"))
+    gone = rcall_nodes(g, inl, lambda nm, c: nm.endswith("_removed_from_collection"))
     if not gone or must_pass(g, [g.entry], [g.exit], gone, edge_ok=no_exc):
         problems.append("a normal path does not end with registry._removed_from_collection(event_key, self)")
     ctx.check(not problems, f.key, "; ".join(problems), "remove per walked subclass, then registry removal", f.loc)
@@ -219,30 +318,33 @@ def r2(ctx):
     for name, helper in (("insert", "prepend_to_list"), ("append", "append_to_list")):
         f = ctx.method(lc.key, name)
         g = ctx.cfg(f)
-        hs = [c for c in calls_in(f.node) if (call_name(c) or "").split(".")[-1] in ("prepend_to_list", "append_to_list")]
-        good = len(hs) == 1 and call_name(hs[0]) == f"{f.params[1]}.{helper}" and len(hs[0].args) == 2 \
-            and dotted(hs[0].args[0]) == "self" and dotted(hs[0].args[1]) == "self.listeners"
-        adds = call_nodes(g, lambda nm, c: nm == "self.propagate.add")
+        inl = Inliner(f.node)
+        hs = [c for c in calls_in(f.node) if (inl.call_name(c) or "").split(".")[-1] in ("prepend_to_list", "append_to_list")]
+        good = len(hs) == 1 and inl.call_name(hs[0]) == f"{f.params[1]}.{helper}" and len(hs[0].args) == 2 \
+            and inl.dotted(hs[0].args[0]) == "self" and inl.dotted(hs[0].args[1]) == "self.listeners"
+        adds = rcall_nodes(g, inl, lambda nm, c: nm == "self.propagate.add")
         pflag = f.params[2]
+        accepted = inl.text(hs[0]) if hs else "?"
         pg = bool(adds) and all(
-            (pflag, True) in guard_atoms(g.edge_guards(n)) and (unparse(hs[0]) if hs else "?", True) in guard_atoms(g.edge_guards(n))
+            (pflag, True) in inl.atoms(g.edge_guards(n)) and (accepted, True) in inl.atoms(g.edge_guards(n))
             for n in adds)
         ctx.check(good and pg, f.key,
                   f"instance-level {name}() does not use event_key.{helper}(self, self.listeners) and record propagation only on success",
                   f"-> {helper}; propagate.add under `propagate`", f.loc)
     f = ctx.method(lc.key, "remove")
     g = ctx.cfg(f)
+    inl = Inliner(f.node)
     need = {
-        "listeners": call_nodes(g, lambda nm, c: nm == "self.listeners.remove"),
-        "propagate": call_nodes(g, lambda nm, c: nm in ("self.propagate.discard", "self.propagate.remove")),
-        "registry": call_nodes(g, lambda nm, c: nm.endswith("_removed_from_collection")),
+        "listeners": rcall_nodes(g, inl, lambda nm, c: nm == "self.listeners.remove"),
+        "propagate": rcall_nodes(g, inl, lambda nm, c: nm in ("self.propagate.discard", "self.propagate.remove")),
+        "registry": rcall_nodes(g, inl, lambda nm, c: nm.endswith("_removed_from_collection")),
     }
     # the same three updates done by a helper of the event key (`event_key.remove_from_list(self, self.listeners)`):
     # each helper is read once and credited with what it does, on every normal path, to the arguments it was given
     via = {}
     for n in g.nodes:
         for c in own_calls(n):
-            for what in _key_helper_effects(ctx, f, c):
+            for what in _key_helper_effects(ctx, f, c, inl):
                 need[what].append(n.id)
                 via[what] = call_name(c)
     miss = [k for k, v in need.items() if not v or must_pass(g, [g.entry], [g.exit], v, edge_ok=no_exc)]
@@ -251,10 +353,11 @@ def r2(ctx):
               "listeners, propagate and registry all updated", f.loc)
     f = ctx.method(lc.key, "clear")
     g = ctx.cfg(f)
+    inl = Inliner(f.node)
     need = {
-        "listeners": call_nodes(g, lambda nm, c: nm == "self.listeners.clear"),
-        "propagate": call_nodes(g, lambda nm, c: nm == "self.propagate.clear"),
-        "registry": call_nodes(g, lambda nm, c: nm.endswith("registry._clear")),
+        "listeners": rcall_nodes(g, inl, lambda nm, c: nm == "self.listeners.clear"),
+        "propagate": rcall_nodes(g, inl, lambda nm, c: nm == "self.propagate.clear"),
+        "registry": rcall_nodes(g, inl, lambda nm, c: nm.endswith("registry._clear")),
     }
     miss = [k for k, v in need.items() if not v or must_pass(g, [g.entry], [g.exit], v, edge_ok=no_exc)]
     order = None
@@ -270,21 +373,22 @@ def r2(ctx):
     for name, op in (("prepend_to_list", "appendleft"), ("append_to_list", "append")):
         f = ctx.method(ek.key, name)
         g = ctx.cfg(f)
+        inl = Inliner(f.node)
         lst = f.params[2]
-        ops = call_nodes(g, lambda nm, c: nm.startswith(lst + ".") and nm.split(".")[-1] in ("append", "appendleft", "insert", "extend"))
+        ops = rcall_nodes(g, inl, lambda nm, c: nm.startswith(lst + ".") and nm.split(".")[-1] in ("append", "appendleft", "insert", "extend"))
         good = bool(ops)
         for n in ops:
-            c = [c for c in calls_in(g.nodes[n].stmt) if (call_name(c) or "").startswith(lst + ".")][0]
-            if call_name(c) != f"{lst}.{op}" or not (len(c.args) == 1 and dotted(c.args[0]) == "self._listen_fn"):
+            c = [c for c in own_calls(g.nodes[n]) if (inl.call_name(c) or "").startswith(lst + ".")][0]
+            if inl.call_name(c) != f"{lst}.{op}" or not (len(c.args) == 1 and inl.dotted(c.args[0]) == "self._listen_fn"):
                 good = False
-            atoms = guard_atoms(g.edge_guards(n))
+            atoms = inl.atoms(g.edge_guards(n))
             if not any(p and a.replace(" ", "").startswith("_stored_in_collection(self,") for a, p in atoms):
                 good = False
         ctx.check(good, f.key, f"{name} does not {op}() self._listen_fn exactly when _stored_in_collection() accepted the key",
                   f"{op} under `_stored_in_collection(self, owner)`", f.loc)
 
 
-def _key_helper_effects(ctx, f, call):
+def _key_helper_effects(ctx, f, call, inl=None):
     """Which of {'listeners','propagate','registry'} a call `<event_key>.<helper>(...)` inside an instance-level
     collection method takes care of.  The helper (a method of registry._EventKey) is analysed with its own
     parameters bound to the argument expressions of the call: `<param>.remove/discard(self._listen_fn)` counts for
@@ -293,6 +397,7 @@ def _key_helper_effects(ctx, f, call):
     fn = call.func
     if not (isinstance(fn, ast.Attribute) and isinstance(fn.value, ast.Name) and len(f.params) > 1 and fn.value.id == f.params[1]):
         return []
+    inl = inl or (lambda e: e)
     ek = ctx.index.cls(f"{REG}::_EventKey")
     h = ctx.index.resolve_method(ek, fn.attr)
     if h is None or h.node.args.vararg or h.node.args.kwarg:
@@ -300,10 +405,10 @@ def _key_helper_effects(ctx, f, call):
     ctx.functions_analysed.add(h.key)
     bound = {}
     for p, a in zip(h.params[1:], call.args):
-        bound[p] = dotted(a)
+        bound[p] = dotted(inl(a))
     for k in call.keywords:
         if k.arg:
-            bound[k.arg] = dotted(k.value)
+            bound[k.arg] = dotted(inl(k.value))
     gh = ctx.cfg(h)
     out = []
     slots = {"self.listeners": "listeners", "self.propagate": "propagate"}
@@ -332,6 +437,14 @@ def _preds_closure(g, n):
     return seen
 
 
+def _iter_sources(e):
+    """collections a loop header walks, in order: `x` -> [x]; `itertools.chain(a, b)` -> [a, b]"""
+    if isinstance(e, ast.Call) and (call_name(e) or "").split(".")[-1] == "chain" and not e.keywords \
+            and not any(isinstance(a, ast.Starred) for a in e.args):
+        return [d for a in e.args for d in _iter_sources(a)]
+    return [dotted(e)]
+
+
 @R.rule("C28-R3", floor=2, template="T-FLOW",
         desc="_CompoundListener.__call__ calls parent_listeners then listeners, each once; "
              "_EmptyListener.__call__ calls parent_listeners")
@@ -340,29 +453,62 @@ def r3(ctx):
                        (f"{ATTR}::_EmptyListener", ["self.parent_listeners"])):
         f = ctx.func(ckey + ".__call__")
         g = ctx.cfg(f)
+        inl = Inliner(f.node, allow_calls=False)
         loops = [n for n in g.nodes if n.kind == "for"]
         order = []
         problems = []
         # order along the CFG: follow the exhausted edges from entry
         seq = sorted(loops, key=lambda n: len(g.reachable([n.id])), reverse=True)
         for n in seq:
-            order.append(dotted(n.stmt.iter))
+            order.extend(_iter_sources(inl(n.stmt.iter)))
             tv = n.stmt.target.id if isinstance(n.stmt.target, ast.Name) else None
             body_calls = [c for st in n.stmt.body for c in calls_in(st)]
             ok = len(n.stmt.body) == 1 and len(body_calls) == 1 and isinstance(body_calls[0].func, ast.Name) \
                 and body_calls[0].func.id == tv \
                 and any(isinstance(a, ast.Starred) for a in body_calls[0].args) and any(k.arg is None for k in body_calls[0].keywords)
             if not ok:
-                problems.append(f"loop over {dotted(n.stmt.iter)} does not simply call each listener with (*args, **kw)")
+                problems.append(f"loop over {inl.text(n.stmt.iter)} does not simply call each listener with (*args, **kw)")
         for a, b in zip(seq, seq[1:]):
             if b.id not in g.reachable([a.id]) or a.id in g.reachable([b.id]):
                 problems.append("the loops are not strictly sequential")
         if order != want:
             problems.append(f"dispatch order is {order}, expected {want}")
-        others = [c for c in calls_in(f.node) if not any(c in calls_in(st) for n in loops for st in n.stmt.body)]
+        others = [c for c in calls_in(f.node) if not any(c in calls_in(st) for n in loops for st in n.stmt.body)
+                  and not any(c in list(ast.walk(n.stmt.iter)) for n in loops)]
         if others:
             problems.append(f"extra calls outside the listener loops: {[unparse(c) for c in others]}")
         ctx.check(not problems, f.key, "; ".join(problems), " then ".join(want), f.loc)
+
+
+def _dedup_extends(ctx, f, g, inl, tgt):
+    """How update_subclass copies inherited listeners into the target's collection: every site is judged by whether
+    it can add a function the collection already holds.  Two spellings of the same thing are understood:
+    `coll.extend([fn for fn in src if fn not in coll])` and the loop `for fn in src: if fn not in coll: coll.append(fn)`."""
+    slot = f"self._clslevel[{tgt}]"
+    sites, problems = [], []
+    for n in g.nodes:
+        for c in own_calls(n):
+            fn = c.func
+            if not (isinstance(fn, ast.Attribute) and fn.attr in ("extend", "append", "appendleft", "extendleft")):
+                continue
+            recv = inl.text(fn.value)
+            if recv != slot:
+                continue
+            sites.append(c)
+            a = c.args[0] if c.args else None
+            good = False
+            if fn.attr in ("extend", "extendleft") and isinstance(a, (ast.ListComp, ast.GeneratorExp)) and len(a.generators) == 1:
+                gen = a.generators[0]
+                ev = gen.target.id if isinstance(gen.target, ast.Name) else None
+                for cond in gen.ifs:
+                    if (f"{ev} in {slot}", False) in guard_atoms([(inl(cond), True)]) and isinstance(a.elt, ast.Name) and a.elt.id == ev:
+                        good = True
+            elif fn.attr in ("append", "appendleft") and isinstance(a, ast.Name):
+                # element-wise copy: dominated by the outcome `<element> not in <collection>`
+                good = (f"{a.id} in {slot}", False) in inl.atoms(g.edge_guards(n.id))
+            if not good:
+                problems.append(f"`{unparse(c)[:80]}` can add a listener that the collection already holds (it would fire twice)")
+    return sites, problems
 
 
 @R.rule("C28-R4", floor=4, template="T-PATH",
@@ -372,30 +518,14 @@ def r4(ctx):
     cd = ctx.index.cls(f"{ATTR}::_ClsLevelDispatch")
     f = ctx.method(cd.key, "update_subclass")
     tgt = f.params[1]
-    coll = {n for n, v, _ in name_stores(f.node) if v is not None and unparse(v) == f"self._clslevel[{tgt}]"}
-    ext = [c for c in calls_in(f.node) if (call_name(c) or "").split(".")[-1] in ("extend", "append", "appendleft", "extendleft")
-           and ((call_name(c) or "").rsplit(".", 1)[0] in coll or unparse(c.func.value) == f"self._clslevel[{tgt}]")]
-    ctx.require(ext, "update_subclass no longer extends the target's listener collection")
-    problems = []
-    for c in ext:
-        a = c.args[0] if c.args else None
-        recv = unparse(c.func.value)
-        good = False
-        if isinstance(a, (ast.ListComp, ast.GeneratorExp)) and len(a.generators) == 1:
-            gen = a.generators[0]
-            ev = gen.target.id if isinstance(gen.target, ast.Name) else None
-            for cond in gen.ifs:
-                if isinstance(cond, ast.Compare) and len(cond.ops) == 1 and isinstance(cond.ops[0], ast.NotIn) \
-                        and isinstance(cond.left, ast.Name) and cond.left.id == ev and unparse(cond.comparators[0]) == recv \
-                        and isinstance(a.elt, ast.Name) and a.elt.id == ev:
-                    good = True
-        if not good:
-            problems.append(f"`{unparse(c)[:80]}` can add a listener that the collection already holds (it would fire twice)")
-    ctx.check(not problems, f.key + ":no-duplicates", "; ".join(problems), "extend([fn ... if fn not in clslevel])", f.loc)
     g = ctx.cfg(f)
+    inl = _SlotInliner(f.node, tgt)
+    ext, problems = _dedup_extends(ctx, f, g, inl, tgt)
+    ctx.require(ext, "update_subclass no longer extends the target's listener collection")
+    ctx.check(not problems, f.key + ":no-duplicates", "; ".join(problems), "extend([fn ... if fn not in clslevel])", f.loc)
     creates = [n for st in walk_stmts(f.node.body) if isinstance(st, ast.Assign)
-               and any(isinstance(t, ast.Subscript) and dotted(t.value) == "self._clslevel" for t in st.targets) for n in g.nodes_for(st)]
-    bad = [n for n in creates if (f"{tgt} in self._clslevel", False) not in guard_atoms(g.edge_guards(n))]
+               and any(isinstance(t, ast.Subscript) and inl.dotted(t.value) == "self._clslevel" for t in st.targets) for n in g.nodes_for(st)]
+    bad = [n for n in creates if (f"{tgt} in self._clslevel", False) not in inl.atoms(g.edge_guards(n))]
     ctx.check(bool(creates) and not bad, f.key + ":create-once",
               "update_subclass can replace an existing subclass collection (listeners registered on the subclass are dropped)",
               "collection created only when missing", f.loc)
@@ -403,18 +533,36 @@ def r4(ctx):
     for ckey in (f"{ATTR}::_EmptyListener.__init__", f"{ATTR}::_ListenerCollection.__init__"):
         fc = ctx.func(ckey)
         gc_ = ctx.cfg(fc)
-        us = calls_ending(gc_, "update_subclass")
+        inlc = Inliner(fc.node)
         tc = fc.params[2]
         par = fc.params[1]
+        us = rcall_nodes(gc_, inlc, lambda nm, c: nm == "update_subclass" or nm.endswith(".update_subclass"))
         reads = [n for n in gc_.nodes if n.kind == "stmt" and any(
-            isinstance(x, ast.Subscript) and dotted(x.value) == f"{par}._clslevel" for x in ast.walk(n.stmt))]
-        miss = test_edges(gc_, lambda t, p: t == f"{tc} in {par}._clslevel" and p is True)
+            isinstance(x, ast.Subscript) and inlc.dotted(x.value) == f"{par}._clslevel" for x in ast.walk(n.stmt))]
+        miss = test_edges_inl(gc_, inlc, lambda t, p: t == f"{tc} in {par}._clslevel" and p is True)
         w = None
         for n in reads:
             w = w or must_pass(gc_, [gc_.entry], [n.id], us, edge_ok=both(no_exc, cut_edges(miss)))
         ctx.check(bool(us) and bool(reads) and w is None, fc.key,
                   "the class-level collection of the target class is read without making sure it exists / is populated from the base classes",
                   "update_subclass(target_cls) when missing, before parent._clslevel[target_cls]", fc.loc, w)
+
+
+class _SlotInliner(Inliner):
+    """update_subclass first creates `self._clslevel[target]` when it is missing and then reads it into a local
+    (`clslevel = self._clslevel[target]`): the local is an alias of the slot although the function stores into the
+    slot before -- the store only ever happens when the slot did not exist, i.e. before the local is bound."""
+
+    def __init__(self, fnode, tgt):
+        super().__init__(fnode)
+        binds = {}
+        for nm, v, st in name_stores(fnode):
+            binds.setdefault(nm, []).append(v)
+        for nm, vs in binds.items():
+            if len(vs) == 1 and vs[0] is not None and nm not in self.env:
+                base = Inliner.__call__(self, vs[0])
+                if unparse(base) == f"self._clslevel[{tgt}]":
+                    self.env[nm] = vs[0]
 
 
 # ---------------------------------------------------------------------- C28-R5
@@ -671,3 +819,153 @@ R.mutant("benign-for-modify-branches-return-directly", ATTR,
                      "                return _ListenerCollection(self.parent, obj._instance_cls)\n            else:\n                return existing\n"), None)
 R.mutant("benign-for-modify-rename-locals", ATTR,
          sub(FORMOD, FORMOD.replace("existing", "current").replace("result", "coll")), None)
+
+# --- robustify round (rob-F1): behaviour-preserving refactors of the anchors (stored: benign/rfF_1..3) and their
+# neighbourhood must stay silent; the same shapes with the property broken must still fire
+EXEC_ONCE = ("        with self._get_exec_once_mutex():\n            if not self._exec_once:\n                try:\n"
+             "                    self(*args, **kw)\n                    exception = False\n                except:\n"
+             "                    exception = True\n                    raise\n                finally:\n"
+             "                    if not exception or not retry_on_exception:\n                        self._exec_once = True\n")
+_EARLY = ("            try:\n                self(*args, **kw)\n                exception = False\n            except:\n"
+          "                exception = True\n                raise\n            finally:\n"
+          "                if not exception or not retry_on_exception:\n                    self._exec_once = True\n")
+R.mutant("benign-rfF2-exec-once-early-return-inside-mutex", ATTR,
+         sub(EXEC_ONCE, "        with self._get_exec_once_mutex():\n            if self._exec_once:\n                return\n\n" + _EARLY), None)
+R.mutant("exec-once-early-return-tested-before-mutex", ATTR,
+         sub(EXEC_ONCE, "        if self._exec_once:\n            return\n        with self._get_exec_once_mutex():\n" + _EARLY), "C28-R1")
+R.mutant("benign-exec-once-mutex-held-in-local", ATTR,
+         sub(EXEC_ONCE, EXEC_ONCE.replace("        with self._get_exec_once_mutex():\n",
+                                          "        mutex = self._get_exec_once_mutex()\n        with mutex:\n")), None)
+R.mutant("benign-exec-once-except-else-instead-of-finally", ATTR,
+         sub(EXEC_ONCE, "        with self._get_exec_once_mutex():\n            if not self._exec_once:\n                try:\n"
+                        "                    self(*args, **kw)\n                except:\n                    if not retry_on_exception:\n"
+                        "                        self._exec_once = True\n                    raise\n                else:\n"
+                        "                    self._exec_once = True\n"), None)
+R.mutant("exec-once-except-else-flag-on-retry-failure", ATTR,
+         sub(EXEC_ONCE, "        with self._get_exec_once_mutex():\n            if not self._exec_once:\n                try:\n"
+                        "                    self(*args, **kw)\n                except:\n                    if retry_on_exception:\n"
+                        "                        self._exec_once = True\n                    raise\n                else:\n"
+                        "                    self._exec_once = True\n"), "C28-R1")
+_LOCKED_HELPER = ("    def _exec_once_locked(\n        self, retry: bool, *args: Any, **kw: Any\n    ) -> None:\n        try:\n"
+                  "            self(*args, **kw)\n            failed = False\n        except:\n            failed = True\n            raise\n"
+                  "        finally:\n            if not failed or not retry:\n                self._exec_once = True\n\n")
+R.mutant("benign-exec-once-locked-body-in-helper", ATTR,
+         sub(EXEC_ONCE, "        with self._get_exec_once_mutex():\n            if not self._exec_once:\n"
+                        "                self._exec_once_locked(retry_on_exception, *args, **kw)\n\n" + _LOCKED_HELPER), None)
+R.mutant("exec-once-helper-called-outside-mutex", ATTR,
+         sub(EXEC_ONCE, "        with self._get_exec_once_mutex():\n            pending = not self._exec_once\n        if pending:\n"
+                        "            self._exec_once_locked(retry_on_exception, *args, **kw)\n\n" + _LOCKED_HELPER), "C28-R1")
+R.mutant("exec-once-helper-ignores-retry", ATTR,
+         sub(EXEC_ONCE, "        with self._get_exec_once_mutex():\n            if not self._exec_once:\n"
+                        "                self._exec_once_locked(retry_on_exception, *args, **kw)\n\n"
+                        + _LOCKED_HELPER.replace("if not failed or not retry:", "if not failed:")), "C28-R1")
+_SYNC = ("        if not self._exec_w_sync_once:\n            with self._get_exec_once_mutex():\n                try:\n"
+         "                    self(*args, **kw)\n                except:\n                    raise\n                else:\n"
+         "                    self._exec_w_sync_once = True\n        else:\n            self(*args, **kw)\n")
+R.mutant("benign-rfF2-sync-first-run-inverted-no-except-raise", ATTR,
+         sub(_SYNC, "        if self._exec_w_sync_once:\n            self(*args, **kw)\n        else:\n"
+                    "            with self._get_exec_once_mutex():\n                self(*args, **kw)\n"
+                    "                self._exec_w_sync_once = True\n"), None)
+R.mutant("sync-first-run-inverted-flag-before-dispatch", ATTR,
+         sub(_SYNC, "        if self._exec_w_sync_once:\n            self(*args, **kw)\n        else:\n"
+                    "            with self._get_exec_once_mutex():\n                try:\n                    self(*args, **kw)\n"
+                    "                finally:\n                    self._exec_w_sync_once = True\n"), "C28-R1")
+_GETMUTEX = ("        with util.mini_gil:\n            if self._exec_once_mutex is not None:\n                return self._exec_once_mutex\n\n"
+             "            if self._is_asyncio:\n                mutex = AsyncAdaptedLock()\n            else:\n"
+             "                mutex = threading.Lock()  # type: ignore[assignment]\n            self._exec_once_mutex = mutex\n\n"
+             "            return mutex\n")
+R.mutant("benign-get-mutex-snapshot-local-single-return", ATTR,
+         sub(_GETMUTEX, "        with util.mini_gil:\n            mutex = self._exec_once_mutex\n            if mutex is None:\n"
+                        "                if self._is_asyncio:\n                    mutex = AsyncAdaptedLock()\n                else:\n"
+                        "                    mutex = threading.Lock()  # type: ignore[assignment]\n"
+                        "                self._exec_once_mutex = mutex\n        return mutex\n"), None)
+R.mutant("get-mutex-snapshot-read-before-gil", ATTR,
+         sub(_GETMUTEX, "        mutex = self._exec_once_mutex\n        with util.mini_gil:\n            if mutex is None:\n"
+                        "                if self._is_asyncio:\n                    mutex = AsyncAdaptedLock()\n                else:\n"
+                        "                    mutex = threading.Lock()  # type: ignore[assignment]\n"
+                        "                self._exec_once_mutex = mutex\n        return mutex\n"), "C28-R1")
+_CLSLOOP = ("        for cls in util.walk_subclasses(target):\n            if cls is not target and cls not in self._clslevel:\n"
+            "                self.update_subclass(cls)\n            else:\n                if cls not in self._clslevel:\n"
+            "                    self.update_subclass(cls)\n                if is_append:\n"
+            "                    self._clslevel[cls].append(event_key._listen_fn)\n                else:\n"
+            "                    self._clslevel[cls].appendleft(event_key._listen_fn)\n")
+R.mutant("benign-rfF1-clslevel-alias-merged-guard-continue", ATTR,
+         sub(_CLSLOOP, "        clslevel = self._clslevel\n\n        for cls in util.walk_subclasses(target):\n            if cls not in clslevel:\n"
+                       "                self.update_subclass(cls)\n                if cls is not target:\n                    continue\n\n"
+                       "            if is_append:\n                clslevel[cls].append(event_key._listen_fn)\n            else:\n"
+                       "                clslevel[cls].appendleft(event_key._listen_fn)\n"), None)
+R.mutant("clslevel-alias-branches-swapped", ATTR,
+         sub(_CLSLOOP, "        clslevel = self._clslevel\n\n        for cls in util.walk_subclasses(target):\n            if cls not in clslevel:\n"
+                       "                self.update_subclass(cls)\n                if cls is not target:\n                    continue\n\n"
+                       "            if is_append:\n                clslevel[cls].appendleft(event_key._listen_fn)\n            else:\n"
+                       "                clslevel[cls].append(event_key._listen_fn)\n"), "C28-R2")
+R.mutant("benign-cls-insert-slot-and-fn-in-locals", ATTR,
+         sub(_CLSLOOP, "        listen_fn = event_key._listen_fn\n        subclasses = util.walk_subclasses(target)\n        for cls in subclasses:\n"
+                       "            if cls is not target and cls not in self._clslevel:\n                self.update_subclass(cls)\n                continue\n"
+                       "            if cls not in self._clslevel:\n                self.update_subclass(cls)\n            coll = self._clslevel[cls]\n"
+                       "            if not is_append:\n                coll.appendleft(listen_fn)\n            else:\n                coll.append(listen_fn)\n"), None)
+_PERCLS = ("    def _add_to_class(\n        self, klass: Type[_ET], key: _EventKey[_ET], at_end: bool\n    ) -> None:\n"
+           "        if klass not in self._clslevel:\n            self.update_subclass(klass)\n        if at_end:\n"
+           "            self._clslevel[klass].append(key._listen_fn)\n        else:\n            self._clslevel[klass].appendleft(key._listen_fn)\n\n")
+_PERCLS_LOOP = ("        for cls in util.walk_subclasses(target):\n            if cls is not target and cls not in self._clslevel:\n"
+                "                self.update_subclass(cls)\n            else:\n                self._add_to_class(cls, event_key, is_append)\n")
+_STORE_TAIL = "        registry._stored_in_collection(event_key, self)\n\n    def insert(self, event_key: _EventKey[_ET], propagate: bool) -> None:\n        self._do_insert_or_append(event_key, is_append=False)\n"
+R.mutant("benign-cls-insert-per-class-helper", ATTR,
+         chain(sub(_CLSLOOP, _PERCLS_LOOP),
+               sub(_STORE_TAIL, _STORE_TAIL.replace("\n    def insert(", "\n" + _PERCLS + "    def insert(", 1))), None)
+R.mutant("cls-insert-per-class-helper-swapped", ATTR,
+         chain(sub(_CLSLOOP, _PERCLS_LOOP),
+               sub(_STORE_TAIL, _STORE_TAIL.replace("\n    def insert(", "\n" + _PERCLS.replace("if at_end:", "if not at_end:") + "    def insert(", 1))), "C28-R2")
+_INST_INSERT = ("        if event_key.prepend_to_list(self, self.listeners):\n            if propagate:\n"
+                "                self.propagate.add(event_key._listen_fn)\n")
+R.mutant("benign-instance-insert-result-in-local-merged-test", ATTR,
+         sub(_INST_INSERT, "        added = event_key.prepend_to_list(self, self.listeners)\n        if added and propagate:\n"
+                           "            self.propagate.add(event_key._listen_fn)\n"), None)
+R.mutant("benign-instance-insert-early-return", ATTR,
+         sub(_INST_INSERT, "        if not event_key.prepend_to_list(self, self.listeners):\n            return\n        if not propagate:\n            return\n"
+                           "        self.propagate.add(event_key._listen_fn)\n"), None)
+R.mutant("instance-insert-propagates-even-if-not-added", ATTR,
+         sub(_INST_INSERT, "        added = event_key.prepend_to_list(self, self.listeners)\n        if added or propagate:\n"
+                           "            self.propagate.add(event_key._listen_fn)\n"), "C28-R2")
+_REG_APPEND = ("        if _stored_in_collection(self, owner):\n            list_.append(self._listen_fn)\n            return True\n"
+               "        else:\n            return False\n")
+R.mutant("benign-rfF3-registry-append-early-return", REG,
+         sub(_REG_APPEND, "        if not _stored_in_collection(self, owner):\n            return False\n\n"
+                          "        list_.append(self._listen_fn)\n        return True\n"), None)
+R.mutant("benign-registry-append-result-in-local", REG,
+         sub(_REG_APPEND, "        stored = _stored_in_collection(self, owner)\n        if stored:\n            list_.append(self._listen_fn)\n"
+                          "        return stored\n"), None)
+R.mutant("registry-append-when-not-stored", REG,
+         sub(_REG_APPEND, "        stored = _stored_in_collection(self, owner)\n        if not stored:\n            list_.append(self._listen_fn)\n"
+                          "        return stored\n"), "C28-R2")
+_INST_REMOVE_ALIAS = ("        listeners = self.listeners\n        fn = event_key._listen_fn\n        listeners.remove(fn)\n"
+                      "        self.propagate.discard(fn)\n        registry._removed_from_collection(event_key, self)\n")
+R.mutant("benign-instance-remove-through-locals", ATTR, sub(REMOVE3, _INST_REMOVE_ALIAS), None)
+_CALL2 = "        for fn in self.parent_listeners:\n            fn(*args, **kw)\n        for fn in self.listeners:\n            fn(*args, **kw)\n"
+R.mutant("benign-call-one-loop-over-chain", ATTR,
+         sub(_CALL2, "        for fn in chain(self.parent_listeners, self.listeners):\n            fn(*args, **kw)\n"), None)
+R.mutant("call-one-loop-over-chain-reversed", ATTR,
+         sub(_CALL2, "        for fn in chain(self.listeners, self.parent_listeners):\n            fn(*args, **kw)\n"), "C28-R3")
+R.mutant("benign-call-collections-in-locals", ATTR,
+         sub(_CALL2, "        inherited = self.parent_listeners\n        own = self.listeners\n        for fn in inherited:\n            fn(*args, **kw)\n"
+                     "        for fn in own:\n            fn(*args, **kw)\n"), None)
+_UPD_EXT = ("            if cls in self._clslevel:\n                clslevel.extend(\n"
+            "                    [fn for fn in self._clslevel[cls] if fn not in clslevel]\n                )\n")
+R.mutant("benign-update-subclass-comprehension-as-loop", ATTR,
+         sub(_UPD_EXT, "            if cls not in self._clslevel:\n                continue\n            for fn in self._clslevel[cls]:\n"
+                       "                if fn not in clslevel:\n                    clslevel.append(fn)\n"), None)
+R.mutant("update-subclass-loop-without-membership-test", ATTR,
+         sub(_UPD_EXT, "            if cls not in self._clslevel:\n                continue\n            for fn in self._clslevel[cls]:\n"
+                       "                clslevel.append(fn)\n"), "C28-R4")
+_UPD_CREATE = ("        if target not in self._clslevel:\n            if getattr(target, \"_sa_propagate_class_events\", True):\n"
+               "                self._clslevel[target] = collections.deque()\n            else:\n"
+               "                self._clslevel[target] = _empty_collection()\n")
+R.mutant("benign-update-subclass-create-merged-tests", ATTR,
+         sub(_UPD_CREATE, "        registered = self._clslevel\n        missing = target not in registered\n"
+                          "        if missing and getattr(target, \"_sa_propagate_class_events\", True):\n"
+                          "            registered[target] = collections.deque()\n        elif missing:\n"
+                          "            registered[target] = _empty_collection()\n"), None)
+_LC_INIT = "        super().__init__()\n        if target_cls not in parent._clslevel:\n            parent.update_subclass(target_cls)\n"
+R.mutant("benign-listener-collection-init-clslevel-alias", ATTR,
+         sub(_LC_INIT, "        super().__init__()\n        known = parent._clslevel\n        if target_cls not in known:\n"
+                       "            parent.update_subclass(target_cls)\n"), None)
